@@ -387,6 +387,11 @@ def rule_d8(repo, col):
     if not looks:
         raise AnalysisError("ClauseDB.%s: look-up in the redirect table not found on any path" % reader.name)
     bad = []
+    # every path consults the own table: an index of the extension's own nodes can be redirected too (_create_alias redirects the placeholder of an imported predicate)
+    for p_ in paths:
+        if p_.end == "return" and not any(fn == "self.__node_redirect.get" for fn, _, _ in p_.calls):
+            conds_ = ", ".join("%s is %s" % (s_, t_) for s_, t_, _ in p_.conds) or "always"
+            bad.append("a path (%s) returns %s without consulting the own redirect table" % (conds_, p_.value))
     for key, cd in looks:
         has_parent = cd.get("self.__parent is None") is False or cd.get("self.__parent is not None") is True
         no_parent = cd.get("self.__parent is None") is True or cd.get("self.__parent is not None") is False
